@@ -470,3 +470,582 @@ Proof.
             (fold_left update_dict post (update_dict (fold_left update_dict pre []) d)))) by (apply filter_In; split; [exact HL | reflexivity]).
   destruct (filter _ _); [destruct H | cbn; lia].
 Qed.
+
+(* ------------------------------------------------------------------ *)
+(* (2b) the synchronous scheduler shell never raises                     *)
+(* ------------------------------------------------------------------ *)
+Fixpoint somes {A} (l : list (option A)) : list A :=
+  match l with [] => [] | Some x :: r => x :: somes r | None :: r => somes r end.
+Lemma In_somes {A} (x : A) l : In x (somes l) <-> In (Some x) l.
+Proof.
+  induction l as [|[y|] l IH]; cbn; [tauto | |].
+  - rewrite IH. split; [intros [->|H]; auto | intros [E|H]; [inversion E; auto | auto]].
+  - rewrite IH. split; [auto | intros [E|H]; [discriminate | auto]].
+Qed.
+Lemma somes_nth_inj {A} (l : list (option A)) : NoDup (somes l) -> forall i j x,
+  nth_error l i = Some (Some x) -> nth_error l j = Some (Some x) -> i = j.
+Proof.
+  induction l as [|[y|] l IH]; cbn; intros Hnd i j x Hi Hj.
+  - destruct i; discriminate.
+  - inversion Hnd as [|? ? Hni Hnd']; subst. destruct i as [|i], j as [|j]; cbn in *; auto.
+    + inversion Hi; subst. exfalso. apply Hni. apply In_somes. eapply nth_error_In; eauto.
+    + inversion Hj; subst. exfalso. apply Hni. apply In_somes. eapply nth_error_In; eauto.
+    + f_equal. eapply IH; eauto.
+  - destruct i as [|i], j as [|j]; cbn in *; try discriminate. f_equal. eapply IH; eauto.
+Qed.
+
+Lemma NoDup_app_remove_l {A} (l l' : list A) : NoDup (l ++ l') -> NoDup l'.
+Proof. induction l as [|a l IH]; cbn; [auto|]. intro H. inversion H; auto. Qed.
+Lemma NoDup_app_remove_r {A} (l l' : list A) : NoDup (l ++ l') -> NoDup l.
+Proof.
+  induction l as [|a l IH]; cbn; [constructor|]. intro H. inversion H as [|? ? Hni Hnd]; subst.
+  constructor; [intro Hin; apply Hni; apply in_or_app; left; exact Hin | auto].
+Qed.
+
+Definition cur_trials (b : bracket) : list Z :=
+  match cur b with Some (rung, _) => somes (map fst rung) | None => [] end.
+
+Lemma flat_map_set_nth_same {A B} (f : A -> list B) l : forall i x y,
+  nth_error l i = Some x -> f y = f x -> flat_map f (set_nth l i y) = flat_map f l.
+Proof.
+  induction l as [|a l IH]; intros [|i] x y H E; cbn in *; try discriminate.
+  - inversion H; subst. rewrite E. reflexivity.
+  - f_equal. eapply IH; eauto.
+Qed.
+Lemma flat_map_set_nth_In {A B} (f : A -> list B) l : forall i x y z,
+  nth_error l i = Some x -> In z (flat_map f (set_nth l i y)) -> In z (f y) \/ In z (flat_map f l).
+Proof.
+  induction l as [|a l IH]; intros [|i] x y z H Hin; cbn in *; try discriminate.
+  - apply in_app_or in Hin as [Hin|Hin]; [left; exact Hin | right; apply in_or_app; right; exact Hin].
+  - apply in_app_or in Hin as [Hin|Hin]; [right; apply in_or_app; left; exact Hin|].
+    destruct (IH i x y z H Hin) as [H1|H1]; [left; exact H1 | right; apply in_or_app; right; exact H1].
+Qed.
+(* replacing one component by a duplicate-free list whose new elements are new everywhere *)
+Lemma flat_map_set_nth_nodup {A B} (f : A -> list B) l : forall i x y,
+  NoDup (flat_map f l) -> nth_error l i = Some x -> NoDup (f y) ->
+  (forall z, In z (f y) -> In z (f x) \/ ~ In z (flat_map f l)) ->
+  NoDup (flat_map f (set_nth l i y)).
+Proof.
+  induction l as [|a l IH]; intros [|i] x y Hnd H Hy Hnew; cbn in *; try discriminate.
+  - inversion H; subst a. clear H. revert Hnd Hnew. generalize (flat_map f l) as rest. intros rest Hnd Hnew.
+    apply NoDup_app_remove_l in Hnd as Hrest.
+    assert (Hdis : forall z, In z (f y) -> ~ In z rest).
+    { intros z Hz Hr. destruct (Hnew z Hz) as [Hx|Hn]; [|apply Hn; apply in_or_app; right; exact Hr].
+      clear - Hnd Hx Hr. induction (f x) as [|w fx IHf]; [destruct Hx|]. cbn in Hnd. inversion Hnd as [|? ? Hni Hnd']; subst.
+      destruct Hx as [->|Hx]; [apply Hni; apply in_or_app; right; exact Hr | auto]. }
+    clear Hnew Hnd. induction (f y) as [|w fy IHf]; cbn; [exact Hrest|]. inversion Hy as [|? ? Hni Hy']; subst. constructor.
+    + intro Hin. apply in_app_or in Hin as [Hin|Hin]; [auto | apply (Hdis w); [left; reflexivity | exact Hin]].
+    + apply IHf; [exact Hy' | intros z Hz; apply Hdis; right; exact Hz].
+  - assert (Ha : NoDup (f a)) by (eapply NoDup_app_remove_r; eauto).
+    assert (Hl : NoDup (flat_map f l)) by (eapply NoDup_app_remove_l; eauto).
+    assert (Hnew' : forall z, In z (f y) -> In z (f x) \/ ~ In z (flat_map f l)).
+    { intros z Hz. destruct (Hnew z Hz) as [H1|H1]; [left; exact H1 | right; intro H2; apply H1; apply in_or_app; right; exact H2]. }
+    specialize (IH i x y Hl H Hy Hnew').
+    (* elements of f a are not in the new tail *)
+    assert (Hdis : forall z, In z (f a) -> ~ In z (flat_map f (set_nth l i y))).
+    { intros z Hz Hin. destruct (flat_map_set_nth_In f l i x y z H Hin) as [H1|H1].
+      - destruct (Hnew z H1) as [H2|H2].
+        + (* z in f a and in f x (a component of l): contradicts NoDup *)
+          assert (In z (flat_map f l)) by (apply in_flat_map; exists x; split; [eapply nth_error_In; eauto | exact H2]).
+          clear - Hnd Hz H0. induction (f a) as [|w fa IHf]; [destruct Hz|]. cbn in Hnd. inversion Hnd as [|? ? Hni Hnd']; subst.
+          destruct Hz as [->|Hz]; [apply Hni; apply in_or_app; right; exact H0 | auto].
+        + apply H2. apply in_or_app. left. exact Hz.
+      - clear - Hnd Hz H1. induction (f a) as [|w fa IHf]; [destruct Hz|]. cbn in Hnd. inversion Hnd as [|? ? Hni Hnd']; subst.
+        destruct Hz as [->|Hz]; [apply Hni; apply in_or_app; right; exact H1 | auto]. }
+    clear - Ha IH Hdis. induction (f a) as [|w fa IHf]; cbn; [exact IH|]. inversion Ha as [|? ? Hni Ha']; subst. constructor.
+    + intro Hin. apply in_app_or in Hin as [Hin|Hin]; [auto | apply (Hdis w); [left; reflexivity | exact Hin]].
+    + apply IHf; [exact Ha' | intros z Hz; apply Hdis; right; exact Hz].
+Qed.
+(* an element occurs in one component only *)
+Lemma flat_map_nodup_component {A B} (f : A -> list B) l : NoDup (flat_map f l) -> forall i j x y z,
+  nth_error l i = Some x -> nth_error l j = Some y -> In z (f x) -> In z (f y) -> i = j.
+Proof.
+  induction l as [|a l IH]; intros Hnd i j x y z Hi Hj Hx Hy; [destruct i; discriminate|].
+  cbn in Hnd. assert (Hl : NoDup (flat_map f l)) by (eapply NoDup_app_remove_l; eauto).
+  assert (Hdis : forall w, In w (f a) -> ~ In w (flat_map f l)).
+  { clear - Hnd. intros w Hw Hin. induction (f a) as [|u fa IHf]; [destruct Hw|]. cbn in Hnd. inversion Hnd as [|? ? Hni Hnd']; subst.
+    destruct Hw as [->|Hw]; [apply Hni; apply in_or_app; right; exact Hin | auto]. }
+  destruct i as [|i], j as [|j]; cbn in *; auto.
+  - inversion Hi; subst. exfalso. apply (Hdis z Hx). apply in_flat_map. exists y. split; [eapply nth_error_In; eauto | exact Hy].
+  - inversion Hj; subst. exfalso. apply (Hdis z Hy). apply in_flat_map. exists x. split; [eapply nth_error_In; eauto | exact Hx].
+  - f_equal. eapply IH; eauto.
+Qed.
+Lemma flat_map_nodup_each {A B} (f : A -> list B) l : NoDup (flat_map f l) -> forall i x, nth_error l i = Some x -> NoDup (f x).
+Proof.
+  induction l as [|a l IH]; intros Hnd i x Hi; [destruct i; discriminate|]. cbn in Hnd. destruct i as [|i]; cbn in Hi.
+  - inversion Hi; subst. eapply NoDup_app_remove_r; eauto.
+  - eapply IH; eauto. eapply NoDup_app_remove_l; eauto.
+Qed.
+
+Lemma somes_map_none n : somes (map fst (repeat ((None, None) : slot) n)) = [].
+Proof. induction n; cbn; auto. Qed.
+Lemma somes_map_promoted l : somes (map fst (map (fun t : Z => ((Some t, None) : slot)) l)) = l.
+Proof. induction l; cbn; congruence. Qed.
+
+Lemma slot_valid_inv b sl : slot_valid b sl = true ->
+  exists rung ms tid, cur b = Some (rung, ms) /\ s_rung sl = current_rung b /\ (s_index sl < first_free b)%nat /\
+    s_level sl = ms /\ nth_error rung (s_index sl) = Some (tid, None) /\ (forall t', tid = Some t' -> s_trial sl = Some t').
+Proof.
+  unfold slot_valid. destruct (cur b) as [[rung ms]|]; [|discriminate]. intro H.
+  apply andb_true_iff in H as [H H4]. apply andb_true_iff in H as [H H3]. apply andb_true_iff in H as [H1 H2].
+  destruct (nth_error rung (s_index sl)) as [[tid mv]|] eqn:EN; [|discriminate]. destruct mv; [discriminate|].
+  exists rung, ms, tid. repeat split; auto; try lia. intros t' ->. destruct (s_trial sl) as [x|]; cbn in H4; [|discriminate].
+  f_equal. lia.
+Qed.
+
+Lemma num_pending_pos (rung : list slot) : forall ff j tr, (j < ff)%nat -> nth_error rung j = Some (tr, None) -> num_pending rung ff <> 0%nat.
+Proof.
+  unfold num_pending. induction rung as [|x rung IH]; intros ff j tr Hj Hn; [destruct j; discriminate|].
+  destruct ff as [|ff]; [lia|]. cbn [firstn filter]. destruct j as [|j]; cbn in Hn.
+  - inversion Hn; subst. cbn. discriminate.
+  - destruct (match snd x with None => true | Some _ => false end); cbn; [discriminate|]. eapply IH; [|eauto]. lia.
+Qed.
+
+Lemma write_trials (rung : list slot) : forall idx tid tr m,
+  nth_error rung idx = Some (tid, None) -> (forall t', tid = Some t' -> tr = Some t') ->
+  let l := somes (map fst rung) in
+  let l' := somes (map fst (write_slot rung idx (tr, m))) in
+  (forall z, In z l' -> In z l \/ (tid = None /\ tr = Some z)) /\
+  (NoDup l -> (forall t, tr = Some t -> tid = None -> ~ In t l) -> NoDup l').
+Proof.
+  induction rung as [|[a mv] rung IH]; intros [|idx] tid tr m Hn Hc; cbn in Hn; try discriminate.
+  - inversion Hn; subst a mv. cbn. destruct tid as [t'|].
+    + rewrite (Hc t' eq_refl). cbn. split; [intros z H; left; exact H | auto].
+    + destruct tr as [t|]; cbn.
+      * split; [intros z [<-|H]; [right; auto | left; exact H]|]. intros Hnd Hnew. constructor; [apply Hnew; auto | exact Hnd].
+      * split; [intros z H; left; exact H | auto].
+  - destruct (IH idx tid tr m Hn Hc) as [A B]. cbn. destruct a as [t0|]; cbn.
+    + split.
+      * intros z [<-|H]; [left; left; reflexivity|]. destruct (A z H) as [H1|H1]; [left; right; exact H1 | right; exact H1].
+      * intros Hnd Hnew. inversion Hnd as [|? ? Hni Hnd']; subst. constructor.
+        -- intro Hin. destruct (A t0 Hin) as [H1|[H1 H2]]; [exact (Hni H1)|]. apply (Hnew t0 H2 H1). left. reflexivity.
+        -- apply B; [exact Hnd' | intros t Ht Hti Hin; apply (Hnew t Ht Hti); right; exact Hin].
+    + split; [exact A | exact B].
+Qed.
+
+Lemma Forall_set_nth {A} (P : A -> Prop) l : forall i y, Forall P l -> P y -> Forall P (set_nth l i y).
+Proof.
+  induction l as [|a l IH]; intros [|i] y H Hy; cbn; auto; inversion H; subst; constructor; auto.
+Qed.
+Lemma set_nth_length {A} (l : list A) : forall i y, length (set_nth l i y) = length l.
+Proof. induction l as [|a l IH]; intros [|i] y; cbn; auto. Qed.
+
+Lemma advance_spec bs : forall fuel p0, (length bs <= p0 + fuel)%nat -> (p0 < length bs)%nat ->
+  let p' := advance_primary bs p0 fuel in
+  (p0 <= p' < length bs)%nat /\ (forall bp, nth_error bs p' = Some bp -> is_complete bp = true -> p' = (length bs - 1)%nat).
+Proof.
+  induction fuel as [|f IH]; intros p0 H1 H2; [lia|]. cbn [advance_primary].
+  destruct (nth_error bs p0) as [b0|] eqn:E0; [|apply nth_error_None in E0; lia].
+  destruct (is_complete b0 && Nat.ltb p0 (length bs - 1)) eqn:EC.
+  - apply andb_true_iff in EC as [_ EC]. apply Nat.ltb_lt in EC. destruct (IH (S p0) ltac:(lia) ltac:(lia)) as [A B].
+    split; [lia | exact B].
+  - split; [lia|]. intros bp Hbp Hc. rewrite E0 in Hbp. inversion Hbp; subst bp. rewrite Hc in EC. cbn in EC.
+    apply Nat.ltb_ge in EC. lia.
+Qed.
+Lemma advance_le bs j bj : nth_error bs j = Some bj -> is_complete bj = false ->
+  forall fuel p0, (p0 <= j)%nat -> (advance_primary bs p0 fuel <= j)%nat.
+Proof.
+  intros Hj Hc. induction fuel as [|f IH]; intros p0 Hp; cbn [advance_primary]; [exact Hp|].
+  destruct (nth_error bs p0) as [b0|] eqn:E0; [|exact Hp].
+  destruct (is_complete b0 && Nat.ltb p0 (length bs - 1)) eqn:EC; [|exact Hp].
+  apply IH. destruct (Nat.eq_dec p0 j) as [->|Hne]; [|lia]. rewrite Hj in E0. inversion E0; subst b0. rewrite Hc in EC. discriminate.
+Qed.
+
+
+Arguments MOk {A} a.
+Arguments MError {A} e.
+
+Section ShellProofs.
+Variable promote : list slot -> nat -> list Z.
+Variable bracket_rungs : list (list (nat * Z)).
+Hypothesis promote_ok : forall rung n, NoDup (promote rung n) /\ forall t, In t (promote rung n) -> In (Some t) (map fst rung).
+Hypothesis rungs_ok : bracket_rungs <> [] /\
+  Forall (fun rs => exists size lvl fut, rs = (size, lvl) :: fut /\ (0 < size)%nat) bracket_rungs.
+
+(* what bracket_on_result does for a valid slot *)
+Definition written (b : bracket) (rung : list slot) (ms : Z) (idx : nat) (x : slot) (b' : bracket) : Prop :=
+  let rung' := write_slot rung idx x in
+  let cond := Nat.leb (length rung') (first_free b) && Nat.eqb (num_pending rung' (first_free b)) 0 in
+  (cond = false /\ b' = {| rungs_done := rungs_done b; cur := Some (rung', ms); future := future b; first_free := first_free b |}) \/
+  (cond = true /\ future b = [] /\
+     b' = {| rungs_done := rungs_done b ++ [(rung', ms)]; cur := None; future := []; first_free := 0 |}) \/
+  (cond = true /\ exists size lvl fut, future b = (size, lvl) :: fut /\
+     b' = {| rungs_done := rungs_done b ++ [(rung', ms)];
+             cur := Some (map (fun t => (Some t, None)) (promote rung' size), lvl); future := fut; first_free := 0 |}).
+
+Lemma bor_valid b sl tr mv : slot_valid b (with_trial sl tr None) = true ->
+  exists rung ms b', cur b = Some (rung, ms) /\ bracket_on_result promote b (with_trial sl tr (Some mv)) = SOk b' /\
+                     written b rung ms (s_index sl) (tr, Some mv) b'.
+Proof.
+  intro Hv. destruct (slot_valid_inv _ _ Hv) as [rung [ms [tid [Hc [H1 [H2 [H3 [H4 H5]]]]]]]]. cbn in H1, H2, H3, H4, H5.
+  exists rung, ms. unfold bracket_on_result, written. rewrite Hc. cbn [with_trial s_rung s_index s_level s_trial s_metric].
+  assert (E1 : negb (Nat.eqb (s_rung sl) (current_rung b)) = false) by (rewrite H1, Nat.eqb_refl; reflexivity).
+  assert (E2 : negb (Nat.ltb (s_index sl) (first_free b)) = false) by (apply negb_false_iff; apply Nat.ltb_lt; exact H2).
+  assert (E3 : negb (s_level sl =? ms) = false) by lia.
+  rewrite E1, E2, E3, H4.
+  assert (E4 : match tid with Some t' => negb (opt_eqb Z.eqb tr (Some t')) | None => false end = false).
+  { destruct tid as [t'|]; [|reflexivity]. rewrite (H5 t' eq_refl). cbn. rewrite Z.eqb_refl. reflexivity. }
+  rewrite E4.
+  destruct (Nat.leb _ _ && Nat.eqb _ 0) eqn:EC.
+  - destruct (future b) as [|[size lvl] fut] eqn:EF; eexists; (split; [reflexivity|]); (split; [reflexivity|]).
+    + right. left. auto.
+    + right. right. split; [reflexivity|]. exists size, lvl, fut. auto.
+  - eexists. split; [reflexivity|]. split; [reflexivity|]. left. auto.
+Qed.
+
+Definition bracket_wf (b : bracket) : Prop :=
+  match cur b with
+  | None => True
+  | Some (rung, _) => (first_free b <= length rung)%nat /\
+                      forall i tr mv, (first_free b <= i)%nat -> nth_error rung i = Some (tr, mv) -> mv = None
+  end.
+
+Definition entry_ok (bs : list bracket) (p : nat) (e : Z * (nat * slot_in_rung)) : Prop :=
+  exists b, nth_error bs (fst (snd e)) = Some b /\ slot_valid b (snd (snd e)) = true /\ (p <= fst (snd e))%nat /\
+            s_trial (snd (snd e)) = Some (fst e) /\
+            (In (fst e) (flat_map cur_trials bs) ->
+             exists rung ms, cur b = Some (rung, ms) /\ nth_error rung (s_index (snd (snd e))) = Some (Some (fst e), None)).
+
+Definition loc (e : Z * (nat * slot_in_rung)) : nat * nat := (fst (snd e), s_index (snd (snd e))).
+
+Lemma cur_trials_new rs : cur_trials (new_bracket rs) = [].
+Proof. destruct rs as [|[size lvl] fut]; unfold cur_trials; cbn; [reflexivity | apply somes_map_none]. Qed.
+Lemma bracket_wf_new rs : bracket_wf (new_bracket rs).
+Proof.
+  destruct rs as [|[size lvl] fut]; unfold bracket_wf; cbn; [exact I|]. split; [lia|].
+  intros i tr mv _ H. apply nth_error_In in H. apply repeat_spec in H. inversion H. reflexivity.
+Qed.
+Lemma alltrials_create bs : flat_map cur_trials (create_new_bracket bracket_rungs bs) = flat_map cur_trials bs.
+Proof. unfold create_new_bracket. rewrite flat_map_app. cbn. rewrite cur_trials_new, app_nil_r. reflexivity. Qed.
+
+(* the written bracket: trials, well-formedness *)
+Lemma written_trials b rung ms idx tid tr mv b' :
+  cur b = Some (rung, ms) -> nth_error rung idx = Some (tid, None) -> (forall t', tid = Some t' -> tr = Some t') ->
+  written b rung ms idx (tr, Some mv) b' ->
+  (forall z, In z (cur_trials b') -> In z (cur_trials b) \/ (tid = None /\ tr = Some z)) /\
+  (NoDup (cur_trials b) -> (forall t, tr = Some t -> tid = None -> ~ In t (cur_trials b)) -> NoDup (cur_trials b')).
+Proof.
+  intros Hc Hn Hcons Hw. destruct (write_trials rung idx tid tr (Some mv) Hn Hcons) as [A B].
+  assert (Hcb : cur_trials b = somes (map fst rung)) by (unfold cur_trials; rewrite Hc; reflexivity).
+  rewrite Hcb. unfold written in Hw.
+  destruct Hw as [[_ ->]|[[_ [_ ->]]|[_ [size [lvl [fut [_ ->]]]]]]]; unfold cur_trials; cbn [cur].
+  - split; [exact A | exact B].
+  - split; [intros z [] | intros; constructor].
+  - rewrite somes_map_promoted. destruct (promote_ok (write_slot rung idx (tr, Some mv)) size) as [P1 P2]. split.
+    + intros z Hz. apply A. apply In_somes. apply P2. exact Hz.
+    + intros _ _. exact P1.
+Qed.
+
+Lemma written_wf b rung ms idx x b' : cur b = Some (rung, ms) -> bracket_wf b -> (idx < first_free b)%nat ->
+  written b rung ms idx x b' -> bracket_wf b'.
+Proof.
+  intros Hc Hwf Hidx Hw. unfold bracket_wf in *. rewrite Hc in Hwf. destruct Hwf as [W1 W2]. unfold written in Hw.
+  destruct Hw as [[_ ->]|[[_ [_ ->]]|[_ [size [lvl [fut [_ ->]]]]]]]; cbn [cur first_free].
+  - rewrite write_slot_length. split; [exact W1|]. intros i tr mv Hi Hn. rewrite write_slot_nth_other in Hn by lia. eauto.
+  - exact I.
+  - split; [lia|]. intros i tr mv _ Hn. apply nth_error_In in Hn. apply in_map_iff in Hn as [t [E _]]. inversion E. reflexivity.
+Qed.
+
+(* another valid slot of the same bracket, at a different position, stays valid (and the rung cannot complete) *)
+Lemma written_other_valid b rung ms idx x b' sl2 : cur b = Some (rung, ms) -> written b rung ms idx x b' ->
+  slot_valid b sl2 = true -> s_index sl2 <> idx ->
+  slot_valid b' sl2 = true /\ cur b' = Some (write_slot rung idx x, ms).
+Proof.
+  intros Hc Hw Hv Hne. destruct (slot_valid_inv _ _ Hv) as [rung0 [ms0 [tid [Hc0 [H1 [H2 [H3 [H4 H5]]]]]]]].
+  rewrite Hc in Hc0. inversion Hc0; subst rung0 ms0. clear Hc0.
+  assert (Hnp : num_pending (write_slot rung idx x) (first_free b) <> 0%nat).
+  { apply (num_pending_pos _ _ (s_index sl2) tid); [exact H2 | rewrite write_slot_nth_other by exact Hne; exact H4]. }
+  unfold written in Hw.
+  assert (Hcond : Nat.leb (length (write_slot rung idx x)) (first_free b) && Nat.eqb (num_pending (write_slot rung idx x) (first_free b)) 0 = false).
+  { apply andb_false_iff. right. apply Nat.eqb_neq. exact Hnp. }
+  destruct Hw as [[_ ->]|[[E _]|[E _]]]; [|congruence|congruence].
+  split; [|cbn [cur]; congruence]. unfold slot_valid in *. cbn [cur first_free]. rewrite Hc in Hv. unfold current_rung in *. cbn [rungs_done].
+  rewrite write_slot_nth_other by exact Hne. exact Hv.
+Qed.
+
+(* ---- the core: reporting a result for a valid slot ------------------- *)
+Lemma result_preserves bs p (P' : list (Z * (nat * slot_in_rung))) bid b sl tr mv bound :
+  NoDup (flat_map cur_trials bs) -> Forall (entry_ok bs p) P' -> Forall bracket_wf bs -> (p < length bs)%nat ->
+  nth_error bs bid = Some b -> slot_valid b (with_trial sl tr None) = true -> (p <= bid)%nat ->
+  (forall e, In e P' -> loc e <> (bid, s_index sl)) ->
+  (forall t, tr = Some t -> ~ In t (map fst P') /\ t < bound /\
+     (In t (flat_map cur_trials bs) -> exists rung ms, cur b = Some (rung, ms) /\ nth_error rung (s_index sl) = Some (Some t, None))) ->
+  (forall t, In t (flat_map cur_trials bs) -> t < bound) ->
+  exists m', manager_on_result promote bracket_rungs {| m_brackets := bs; m_primary := p |} bid (with_trial sl tr (Some mv)) = MOk m' /\
+    NoDup (flat_map cur_trials (m_brackets m')) /\ Forall (entry_ok (m_brackets m') (m_primary m')) P' /\
+    Forall bracket_wf (m_brackets m') /\ (m_primary m' < length (m_brackets m'))%nat /\
+    (forall t, In t (flat_map cur_trials (m_brackets m')) -> t < bound).
+Proof.
+  intros Hnd Hent Hwf Hp Hb Hv Hpb Hloc Htr Hbd.
+  assert (Hbid : (bid < length bs)%nat) by (apply nth_error_Some; congruence).
+  destruct (bor_valid b sl tr mv Hv) as [rung [ms [b' [Hc [Ebor Hw]]]]].
+  destruct (slot_valid_inv _ _ Hv) as [rung0 [ms0 [tid [Hc0 [H1 [H2 [_ [H4 H5]]]]]]]].
+  rewrite Hc in Hc0. inversion Hc0; subst rung0 ms0. clear Hc0. cbn [with_trial s_rung s_index s_level s_trial] in H1, H2, H4, H5.
+  assert (Hcons : forall t', tid = Some t' -> tr = Some t') by exact H5.
+  destruct (written_trials b rung ms (s_index sl) tid tr mv b' Hc H4 Hcons Hw) as [TA TB].
+  set (bs1 := set_nth bs bid b').
+  assert (Hb1 : nth_error bs1 bid = Some b') by (apply set_nth_same; exact Hbid).
+  assert (Hlen1 : length bs1 = length bs) by apply set_nth_length.
+  (* trials after the write *)
+  assert (Hnew : forall t, tr = Some t -> tid = None -> ~ In t (flat_map cur_trials bs)).
+  { intros t Et Etid Hin. destruct (Htr t Et) as [_ [_ H]]. destruct (H Hin) as [rg [m0 [E1 E2]]]. rewrite Hc in E1. inversion E1; subst.
+    rewrite H4 in E2. discriminate. }
+  assert (Hin_b : forall z, In z (cur_trials b) -> In z (flat_map cur_trials bs)).
+  { intros z Hz. apply in_flat_map. exists b. split; [eapply nth_error_In; eauto | exact Hz]. }
+  assert (Hnd1 : NoDup (flat_map cur_trials bs1)).
+  { apply (flat_map_set_nth_nodup cur_trials bs bid b b' Hnd Hb).
+    - apply TB; [eapply flat_map_nodup_each; eauto|]. intros t Et Etid Hin. apply (Hnew t Et Etid). apply Hin_b. exact Hin.
+    - intros z Hz. destruct (TA z Hz) as [H|[E1 E2]]; [left; exact H | right; apply Hnew; assumption]. }
+  assert (Hsub1 : forall z, In z (flat_map cur_trials bs1) -> In z (flat_map cur_trials bs) \/ tr = Some z).
+  { intros z Hz. destruct (flat_map_set_nth_In cur_trials bs bid b b' z Hb Hz) as [H|H]; [|left; exact H].
+    destruct (TA z H) as [H0|[_ H0]]; [left; apply Hin_b; exact H0 | right; exact H0]. }
+  assert (Hbd1 : forall t, In t (flat_map cur_trials bs1) -> t < bound).
+  { intros t Ht. destruct (Hsub1 t Ht) as [H|H]; [apply Hbd; exact H | apply (Htr t H)]. }
+  assert (Hwf1 : Forall bracket_wf bs1).
+  { apply Forall_set_nth; [exact Hwf|]. eapply written_wf; eauto. rewrite Forall_forall in Hwf. apply Hwf. eapply nth_error_In; eauto. }
+  (* every remaining pending entry is fine w.r.t. bs1 *)
+  assert (Hent1 : forall e, In e P' -> exists b2, nth_error bs1 (fst (snd e)) = Some b2 /\ slot_valid b2 (snd (snd e)) = true /\
+            is_complete b2 = false /\ (p <= fst (snd e))%nat /\ s_trial (snd (snd e)) = Some (fst e) /\
+            (In (fst e) (flat_map cur_trials bs1) ->
+             exists rg m0, cur b2 = Some (rg, m0) /\ nth_error rg (s_index (snd (snd e))) = Some (Some (fst e), None))).
+  { intros e He. rewrite Forall_forall in Hent. destruct (Hent e He) as [b2 [E1 [E2 [E3 [E4 E5]]]]].
+    assert (Hne_t : tr <> Some (fst e)).
+    { intro Et. destruct (Htr _ Et) as [Hk _]. apply Hk. apply in_map. exact He. }
+    assert (E5' : In (fst e) (flat_map cur_trials bs1) -> exists rg m0, cur b2 = Some (rg, m0) /\ nth_error rg (s_index (snd (snd e))) = Some (Some (fst e), None)).
+    { intro Hin. destruct (Hsub1 _ Hin) as [H|H]; [auto | congruence]. }
+    destruct (Nat.eq_dec (fst (snd e)) bid) as [Eb|Eb].
+    - rewrite Eb in *. rewrite Hb in E1. inversion E1; subst b2. clear E1.
+      assert (Hidx : s_index (snd (snd e)) <> s_index sl).
+      { intro Ei. apply (Hloc e He). unfold loc. rewrite Eb, Ei. reflexivity. }
+      destruct (written_other_valid b rung ms (s_index sl) (tr, Some mv) b' (snd (snd e)) Hc Hw E2 Hidx) as [V1 V2].
+      exists b'. split; [exact Hb1|]. split; [exact V1|]. split; [unfold is_complete; rewrite V2; reflexivity|].
+      split; [exact E3|]. split; [exact E4|]. intro Hin. destruct (E5' Hin) as [rg [m0 [C1 C2]]]. rewrite Hc in C1. inversion C1; subst rg m0.
+      exists (write_slot rung (s_index sl) (tr, Some mv)), ms. split; [exact V2|]. rewrite write_slot_nth_other by exact Hidx. exact C2.
+    - exists b2. split; [unfold bs1; rewrite set_nth_other by exact Eb; exact E1|]. split; [exact E2|].
+      split; [destruct (slot_valid_inv _ _ E2) as [rg [m0 [? [C _]]]]; unfold is_complete; rewrite C; reflexivity|].
+      split; [exact E3|]. split; [exact E4 | exact E5']. }
+  (* now the manager part *)
+  unfold manager_on_result. cbn [m_brackets m_primary].
+  assert (EG : negb (Nat.leb p bid && Nat.ltb bid (length bs)) = false).
+  { apply negb_false_iff. apply andb_true_iff. split; [apply Nat.leb_le; exact Hpb | apply Nat.ltb_lt; exact Hbid]. }
+  rewrite EG, Hb, Ebor. fold bs1.
+  (* final packaging for a given final bracket list (bs1 or bs1 + new bracket) and primary *)
+  assert (Hpack : forall bsF pF, (bsF = bs1 \/ bsF = create_new_bracket bracket_rungs bs1) ->
+            (pF < length bsF)%nat -> (forall e, In e P' -> (pF <= fst (snd e))%nat) ->
+            NoDup (flat_map cur_trials bsF) /\ Forall (entry_ok bsF pF) P' /\ Forall bracket_wf bsF /\ (pF < length bsF)%nat /\
+            (forall t, In t (flat_map cur_trials bsF) -> t < bound)).
+  { intros bsF pF HF HpF Hle.
+    assert (Etr : flat_map cur_trials bsF = flat_map cur_trials bs1) by (destruct HF as [->| ->]; [reflexivity | apply alltrials_create]).
+    rewrite Etr. split; [exact Hnd1|]. split.
+    - apply Forall_forall. intros e He. destruct (Hent1 e He) as [b2 [E1 [E2 [_ [E3 [E4 E5]]]]]]. exists b2.
+      split.
+      + destruct HF as [->| ->]; [exact E1|]. unfold create_new_bracket. rewrite nth_error_app1; [exact E1 | apply nth_error_Some; congruence].
+      + split; [exact E2|]. split; [apply Hle; exact He|]. split; [exact E4|]. rewrite Etr. exact E5.
+    - split; [|split; [exact HpF | exact Hbd1]]. destruct HF as [->| ->]; [exact Hwf1|].
+      unfold create_new_bracket. apply Forall_app. split; [exact Hwf1 | constructor; [apply bracket_wf_new | constructor]]. }
+  destruct (Nat.eqb bid p) eqn:Ebp.
+  - apply Nat.eqb_eq in Ebp. subst bid.
+    destruct (advance_spec bs1 (length bs1) p ltac:(lia) ltac:(lia)) as [[A1 A2] A3].
+    set (p' := advance_primary bs1 p (length bs1)) in *.
+    assert (Hle' : forall e, In e P' -> (p' <= fst (snd e))%nat).
+    { intros e He. destruct (Hent1 e He) as [b2 [E1 [_ [E3 [E4 _]]]]]. exact (advance_le bs1 _ b2 E1 E3 _ p E4). }
+    destruct (nth_error bs1 p') as [bp|] eqn:Ebp'; [|apply nth_error_None in Ebp'; lia].
+    destruct (is_complete bp) eqn:Ecp.
+    + (* the primary bracket (and all later ones) are complete: a new bracket becomes primary; nothing is pending *)
+      eexists. split; [reflexivity|]. cbn [m_brackets m_primary]. apply Hpack; [right; reflexivity | unfold create_new_bracket; rewrite app_length; cbn; lia|].
+      intros e He. exfalso. destruct (Hent1 e He) as [b2 [E1 [_ [E3 [E4 _]]]]]. specialize (Hle' e He).
+      specialize (A3 bp eq_refl Ecp). assert (Hlt : (fst (snd e) < length bs1)%nat) by (apply nth_error_Some; congruence).
+      assert (fst (snd e) = p') by lia. rewrite H in E1. rewrite Ebp' in E1. inversion E1; subst. congruence.
+    + eexists. split; [reflexivity|]. cbn [m_brackets m_primary]. apply Hpack; [left; reflexivity | lia | exact Hle'].
+  - eexists. split; [reflexivity|]. cbn [m_brackets m_primary]. apply Hpack; [left; reflexivity | lia|].
+    intros e He. destruct (Hent1 e He) as [b2 [_ [_ [_ [E4 _]]]]]. exact E4.
+Qed.
+
+(* ---- handing out a slot ----------------------------------------------- *)
+Lemma next_free_slot_spec b sl b' : next_free_slot b = Some (sl, b') ->
+  exists rung ms tid0 mv0, cur b = Some (rung, ms) /\ nth_error rung (first_free b) = Some (tid0, mv0) /\
+    sl = {| s_rung := current_rung b; s_level := ms; s_index := first_free b; s_trial := tid0; s_metric := None |} /\
+    b' = {| rungs_done := rungs_done b; cur := cur b; future := future b; first_free := S (first_free b) |}.
+Proof.
+  unfold next_free_slot. destruct (cur b) as [[rung ms]|] eqn:Hc; [|discriminate].
+  destruct (nth_error rung (first_free b)) as [[tid0 mv0]|] eqn:En; [|discriminate]. intro H. inversion H; subst.
+  exists rung, ms, tid0, mv0. auto.
+Qed.
+
+Lemma entry_ok_app bs x p e : entry_ok bs p e -> cur_trials x = [] -> entry_ok (bs ++ [x]) p e.
+Proof.
+  intros [b [E1 [E2 [E3 [E4 E5]]]]] Hx. exists b. split; [rewrite nth_error_app1; [exact E1 | apply nth_error_Some; congruence]|].
+  split; [exact E2|]. split; [exact E3|]. split; [exact E4|]. rewrite flat_map_app. cbn. rewrite Hx, app_nil_r. exact E5.
+Qed.
+
+Lemma handout_preserves bs0 p (P : list (Z * (nat * slot_in_rung))) bid b sl b' :
+  Forall (entry_ok bs0 p) P -> Forall bracket_wf bs0 -> nth_error bs0 bid = Some b -> next_free_slot b = Some (sl, b') ->
+  let bs3 := set_nth bs0 bid b' in
+  flat_map cur_trials bs3 = flat_map cur_trials bs0 /\ Forall (entry_ok bs3 p) P /\ Forall bracket_wf bs3 /\
+  nth_error bs3 bid = Some b' /\ (forall e, In e P -> loc e <> (bid, s_index sl)) /\
+  exists rung ms, cur b' = Some (rung, ms) /\ cur b = Some (rung, ms) /\ s_index sl = first_free b /\
+    nth_error rung (s_index sl) = Some (s_trial sl, None) /\
+    (forall tr, (forall t', s_trial sl = Some t' -> tr = Some t') -> slot_valid b' (with_trial sl tr None) = true) /\
+    (forall e, In e P -> fst (snd e) = bid -> (s_index (snd (snd e)) < s_index sl)%nat).
+Proof.
+  intros Hent Hwf Hb Hn. cbn zeta. destruct (next_free_slot_spec _ _ _ Hn) as [rung [ms [tid0 [mv0 [Hc [En [-> ->]]]]]]].
+  assert (Hbid : (bid < length bs0)%nat) by (apply nth_error_Some; congruence).
+  assert (Hwfb : bracket_wf b) by (rewrite Forall_forall in Hwf; apply Hwf; eapply nth_error_In; eauto).
+  unfold bracket_wf in Hwfb. rewrite Hc in Hwfb. destruct Hwfb as [W1 W2].
+  assert (Hmv : mv0 = None) by (eapply W2; [|exact En]; lia). subst mv0.
+  assert (Hff : (first_free b < length rung)%nat) by (apply nth_error_Some; congruence).
+  set (b' := {| rungs_done := rungs_done b; cur := cur b; future := future b; first_free := S (first_free b) |}).
+  assert (Hidx : forall e, In e P -> fst (snd e) = bid -> (s_index (snd (snd e)) < first_free b)%nat).
+  { intros e He Eb. rewrite Forall_forall in Hent. destruct (Hent e He) as [b2 [E1 [E2 _]]]. rewrite Eb, Hb in E1. inversion E1; subst b2.
+    destruct (slot_valid_inv _ _ E2) as [? [? [? [_ [_ [H _]]]]]]. exact H. }
+  split; [apply (flat_map_set_nth_same cur_trials bs0 bid b b' Hb); unfold cur_trials; reflexivity|].
+  split.
+  { apply Forall_forall. intros e He. rewrite Forall_forall in Hent. destruct (Hent e He) as [b2 [E1 [E2 [E3 [E4 E5]]]]].
+    assert (Etr : flat_map cur_trials (set_nth bs0 bid b') = flat_map cur_trials bs0)
+      by (apply (flat_map_set_nth_same cur_trials bs0 bid b b' Hb); unfold cur_trials; reflexivity).
+    destruct (Nat.eq_dec (fst (snd e)) bid) as [Eb|Eb].
+    - rewrite Eb, Hb in E1. inversion E1; subst b2. exists b'. split; [rewrite Eb; apply set_nth_same; exact Hbid|].
+      split.
+      + destruct (slot_valid_inv _ _ E2) as [rg [m0 [tid [C1 [C2 [C3 [C4 [C5 C6]]]]]]]]. unfold slot_valid in *. cbn [cur first_free b'].
+        rewrite C1 in *. unfold current_rung in *. cbn [rungs_done b'].
+        apply andb_true_iff in E2 as [E2 X4]. apply andb_true_iff in E2 as [E2 X3]. apply andb_true_iff in E2 as [X1 X2].
+        rewrite X1, X3, X4. assert (X2' : Nat.ltb (s_index (snd (snd e))) (S (first_free b)) = true) by (apply Nat.ltb_lt; lia).
+        rewrite X2'. reflexivity.
+      + split; [exact E3|]. split; [exact E4|]. rewrite Etr. exact E5.
+    - exists b2. split; [rewrite set_nth_other by exact Eb; exact E1|]. split; [exact E2|]. split; [exact E3|]. split; [exact E4|].
+      rewrite Etr. exact E5. }
+  split.
+  { apply Forall_set_nth; [exact Hwf|]. unfold bracket_wf. cbn [cur first_free b']. rewrite Hc. split; [lia|].
+    intros i tr mv Hi H. eapply W2; [|exact H]. lia. }
+  split; [apply set_nth_same; exact Hbid|].
+  split.
+  { intros e He El. unfold loc in El. inversion El as [[E1 E2]]. cbn in E2. specialize (Hidx e He E1). lia. }
+  exists rung, ms. cbn [cur b' s_index s_trial]. split; [exact Hc|]. split; [exact Hc|]. split; [reflexivity|]. split; [exact En|].
+  split.
+  - intros tr Hcons. unfold slot_valid. cbn [cur b' first_free with_trial s_rung s_index s_level s_trial]. rewrite Hc.
+    unfold current_rung. cbn [rungs_done]. rewrite Nat.eqb_refl, Z.eqb_refl, En.
+    assert (X : Nat.ltb (first_free b) (S (first_free b)) = true) by (apply Nat.ltb_lt; lia). rewrite X. cbn [andb].
+    destruct tid0 as [t'|]; [|reflexivity]. rewrite (Hcons t' eq_refl). cbn. apply Z.eqb_refl.
+  - intros e He Eb. cbn. apply Hidx; assumption.
+Qed.
+
+Lemma nth_error_skipn' {A} (l : list A) : forall n i, nth_error (skipn n l) i = nth_error l (n + i).
+Proof. induction l as [|a l IH]; intros [|n] i; cbn; auto. destruct i; reflexivity. Qed.
+
+Lemma scan_free_spec l : forall i bid sl b', scan_free l i = Some (bid, sl, b') ->
+  exists b, (i <= bid)%nat /\ nth_error l (bid - i) = Some b /\ next_free_slot b = Some (sl, b').
+Proof.
+  induction l as [|b l IH]; intros i bid sl b' H; cbn in H; [discriminate|].
+  destruct (next_free_slot b) as [[sl0 b0]|] eqn:E.
+  - inversion H; subst. exists b. rewrite Nat.sub_diag. auto.
+  - destruct (IH (S i) bid sl b' H) as [b2 [A [B C]]]. exists b2. split; [lia|]. split; [|exact C].
+    replace (bid - i)%nat with (S (bid - S i)) by lia. exact B.
+Qed.
+
+Lemma created_has_slot n : exists sl b', next_free_slot (new_bracket (nth (Nat.modulo n (length bracket_rungs)) bracket_rungs [])) = Some (sl, b').
+Proof.
+  destruct rungs_ok as [Hne Hall]. assert (Hlen : (0 < length bracket_rungs)%nat) by (destruct bracket_rungs; [congruence | cbn; lia]).
+  assert (Hin : In (nth (Nat.modulo n (length bracket_rungs)) bracket_rungs []) bracket_rungs).
+  { apply nth_In. apply Nat.mod_upper_bound. lia. }
+  rewrite Forall_forall in Hall. destruct (Hall _ Hin) as [size [lvl [fut [E Hs]]]]. rewrite E.
+  unfold next_free_slot, new_bracket. cbn [cur first_free]. destruct size as [|size]; [lia|]. cbn. eauto.
+Qed.
+
+Record SInv (st : shell) (bound : Z) : Prop := {
+  si_nodup : NoDup (flat_map cur_trials (m_brackets (sh_mgr st)));
+  si_entries : Forall (entry_ok (m_brackets (sh_mgr st)) (m_primary (sh_mgr st))) (sh_pending st);
+  si_keys : NoDup (map fst (sh_pending st));
+  si_locs : NoDup (map loc (sh_pending st));
+  si_bound_tr : forall t, In t (flat_map cur_trials (m_brackets (sh_mgr st))) -> t < bound;
+  si_bound_keys : forall t, In t (map fst (sh_pending st)) -> t < bound;
+  si_wf : Forall bracket_wf (m_brackets (sh_mgr st));
+  si_primary : (m_primary (sh_mgr st) < length (m_brackets (sh_mgr st)))%nat
+}.
+
+Lemma NoDup_map_inj {A B} (f : A -> B) l : NoDup (map f l) -> forall a b, In a l -> In b l -> f a = f b -> a = b.
+Proof.
+  induction l as [|x l IH]; intros Hnd a b Ha Hb E; [destruct Ha|]. cbn in Hnd. inversion Hnd as [|? ? Hni Hnd']; subst.
+  destruct Ha as [->|Ha], Hb as [->|Hb]; auto.
+  - exfalso. apply Hni. rewrite E. apply in_map. exact Hb.
+  - exfalso. apply Hni. rewrite <- E. apply in_map. exact Ha.
+Qed.
+Lemma lookup_None_notin {A} t (l : list (Z * A)) : lookup t l = None -> ~ In t (map fst l).
+Proof.
+  induction l as [|[k v] l IH]; cbn; [tauto|]. destruct (k =? t) eqn:E; [discriminate|]. intros H [H1|H1]; [lia | exact (IH H H1)].
+Qed.
+
+(* a pending job delivers its result (a metric value or NaN for a failed job) *)
+Lemma finish_entry st bound t bid sl mv : SInv st bound -> In (t, (bid, sl)) (sh_pending st) ->
+  exists m', manager_on_result promote bracket_rungs (sh_mgr st) bid (with_trial sl (s_trial sl) (Some mv)) = MOk m' /\
+    SInv {| sh_mgr := m'; sh_pending := filter (fun e => negb (fst e =? t)) (sh_pending st) |} bound.
+Proof.
+  intros [I1 I2 I3 I4 I5 I6 I7 I8] Hin. destruct (sh_mgr st) as [bs p] eqn:Em. cbn [m_brackets m_primary] in *.
+  set (P' := filter (fun e : Z * (nat * slot_in_rung) => negb (fst e =? t)) (sh_pending st)).
+  assert (HP' : forall e, In e P' -> In e (sh_pending st) /\ fst e <> t).
+  { intros e He. apply filter_In in He as [A B]. split; [exact A | apply negb_true_iff in B; lia]. }
+  rewrite Forall_forall in I2. destruct (I2 _ Hin) as [b [E1 [E2 [E3 [E4 E5]]]]]. cbn [fst snd] in E1, E2, E3, E4, E5.
+  destruct (result_preserves bs p P' bid b sl (s_trial sl) mv bound) as [m' [R0 [R1 [R2 [R3 [R4 R5]]]]]]; auto.
+  - apply Forall_forall. intros e He. apply I2. apply HP'. exact He.
+  - intros e He El. destruct (HP' e He) as [A B]. apply B.
+    assert (e = (t, (bid, sl))) by (eapply (NoDup_map_inj loc); eauto). subst e. reflexivity.
+  - intros t0 Et. rewrite E4 in Et. inversion Et; subst t0. split; [|split].
+    + intro Hk. apply in_map_iff in Hk as [e [Ek He]]. destruct (HP' e He) as [_ B]. congruence.
+    + apply I6. apply in_map_iff. exists (t, (bid, sl)). auto.
+    + exact E5.
+  - exists m'. split; [exact R0|]. constructor; cbn [sh_mgr sh_pending]; auto.
+    + apply NoDup_map_filter. exact I3.
+    + apply NoDup_map_filter. exact I4.
+    + intros t0 Ht0. apply I6. apply in_map_iff in Ht0 as [e [Ek He]]. apply in_map_iff. exists e. split; [exact Ek | apply HP'; exact He].
+Qed.
+
+Lemma next_job_ok st bound : SInv st bound ->
+  exists m' bid sl b', next_job bracket_rungs (sh_mgr st) = MOk (m', bid, sl) /\ m_primary m' = m_primary (sh_mgr st) /\
+    NoDup (flat_map cur_trials (m_brackets m')) /\ (forall t, In t (flat_map cur_trials (m_brackets m')) -> t < bound) /\
+    Forall (entry_ok (m_brackets m') (m_primary m')) (sh_pending st) /\ Forall bracket_wf (m_brackets m') /\
+    (m_primary m' < length (m_brackets m'))%nat /\ (m_primary m' <= bid)%nat /\
+    nth_error (m_brackets m') bid = Some b' /\ (forall e, In e (sh_pending st) -> loc e <> (bid, s_index sl)) /\
+    exists rung ms, cur b' = Some (rung, ms) /\ nth_error rung (s_index sl) = Some (s_trial sl, None) /\
+      (forall tr, (forall t', s_trial sl = Some t' -> tr = Some t') -> slot_valid b' (with_trial sl tr None) = true) /\
+      (forall e, In e (sh_pending st) -> fst (snd e) = bid -> (s_index (snd (snd e)) < s_index sl)%nat).
+Proof.
+  intros [I1 I2 I3 I4 I5 I6 I7 I8]. destruct (sh_mgr st) as [bs p] eqn:Em. cbn [m_brackets m_primary] in *.
+  unfold next_job. cbn [m_brackets m_primary].
+  (* common continuation once a bracket with a free slot is known *)
+  assert (Hgo : forall bs0 bid b sl b', NoDup (flat_map cur_trials bs0) -> (forall t, In t (flat_map cur_trials bs0) -> t < bound) ->
+            Forall (entry_ok bs0 p) (sh_pending st) -> Forall bracket_wf bs0 -> (p < length bs0)%nat -> (p <= bid)%nat ->
+            nth_error bs0 bid = Some b -> next_free_slot b = Some (sl, b') ->
+            let m' := {| m_brackets := set_nth bs0 bid b'; m_primary := p |} in
+            m_primary m' = p /\
+            NoDup (flat_map cur_trials (m_brackets m')) /\ (forall t, In t (flat_map cur_trials (m_brackets m')) -> t < bound) /\
+            Forall (entry_ok (m_brackets m') (m_primary m')) (sh_pending st) /\ Forall bracket_wf (m_brackets m') /\
+            (m_primary m' < length (m_brackets m'))%nat /\ (m_primary m' <= bid)%nat /\
+            nth_error (m_brackets m') bid = Some b' /\ (forall e, In e (sh_pending st) -> loc e <> (bid, s_index sl)) /\
+            exists rung ms, cur b' = Some (rung, ms) /\ nth_error rung (s_index sl) = Some (s_trial sl, None) /\
+              (forall tr, (forall t', s_trial sl = Some t' -> tr = Some t') -> slot_valid b' (with_trial sl tr None) = true) /\
+              (forall e, In e (sh_pending st) -> fst (snd e) = bid -> (s_index (snd (snd e)) < s_index sl)%nat)).
+  { intros bs0 bid b sl b' N0 B0 E0 W0 P0 Pb Hb Hn. cbn zeta. cbn [m_brackets m_primary].
+    destruct (handout_preserves bs0 p (sh_pending st) bid b sl b' E0 W0 Hb Hn) as [H1 [H2 [H3 [H4 [H5 [rung [ms [C1 [_ [_ [C4 [C5 C6]]]]]]]]]]]].
+    split; [reflexivity|]. rewrite H1. split; [exact N0|]. split; [exact B0|]. split; [exact H2|]. split; [exact H3|].
+    split; [rewrite set_nth_length; exact P0|]. split; [exact Pb|]. split; [exact H4|]. split; [exact H5|].
+    exists rung, ms. auto. }
+  destruct (scan_free (skipn p bs) p) as [[[bid sl] b']|] eqn:Es.
+  - destruct (scan_free_spec _ _ _ _ _ Es) as [b [A [B C]]].
+    assert (Hb : nth_error bs bid = Some b).
+    { rewrite nth_error_skipn' in B. replace (p + (bid - p))%nat with bid in B by lia. exact B. }
+    exists {| m_brackets := set_nth bs bid b'; m_primary := p |}, bid, sl, b'. split; [reflexivity|].
+    apply (Hgo bs bid b sl b'); auto.
+  - set (bs2 := create_new_bracket bracket_rungs bs). set (bid := length bs).
+    assert (Hb : nth_error bs2 bid = Some (new_bracket (nth (Nat.modulo (length bs) (length bracket_rungs)) bracket_rungs []))).
+    { unfold bs2, create_new_bracket, bid. rewrite nth_error_app2 by lia. rewrite Nat.sub_diag. reflexivity. }
+    rewrite Hb. destruct (created_has_slot (length bs)) as [sl [b' Hn]]. rewrite Hn.
+    exists {| m_brackets := set_nth bs2 bid b'; m_primary := p |}, bid, sl, b'. split; [reflexivity|].
+    apply (Hgo bs2 bid (new_bracket (nth (Nat.modulo (length bs) (length bracket_rungs)) bracket_rungs [])) sl b'); auto.
+    + unfold bs2. rewrite alltrials_create. exact I1.
+    + unfold bs2. rewrite alltrials_create. exact I5.
+    + unfold bs2, create_new_bracket. apply Forall_forall. intros e He. rewrite Forall_forall in I2.
+      apply entry_ok_app; [apply I2; exact He | apply cur_trials_new].
+    + unfold bs2, create_new_bracket. apply Forall_app. split; [exact I7 | constructor; [apply bracket_wf_new | constructor]].
+    + unfold bs2, create_new_bracket. rewrite app_length. cbn. lia.
+    + unfold bid. lia.
+Qed.
+End ShellProofs.
